@@ -306,8 +306,8 @@ def plan(tier):
         CaseStage("width-boundaries", lambda: width_cases(tier), run_width, chunk=1,
                   rule="manifest / severed member byte length at 23,24,255,256,65535,65536 x 5 algorithms"),
     ]
-    for node in ("envelope", "manifest", "text", "auth"):
-        st.append(ExploreStage(f"G:{node}", g_scenario(node), bound=b if node in ("envelope", "auth") else None,
+    for node in ("envelope", "manifest", "text", "auth", "whole"):
+        st.append(ExploreStage(f"G:{node}", g_scenario(node), bound=(b - 1 if node == "whole" else b) if node in ("envelope", "auth", "whole") else None,
                                rule=f"G scenario {node}, digests recomputed at every nesting level"))
     st.append(CaseStage("cli", lambda: cli_cases(tier), run_cli, chunk=1, rule="real CLI subprocess, JSON and YAML"))
     return st
